@@ -1269,7 +1269,14 @@ func isFastForward(s storer.EncodedObjectStorer, old, newHash plumbing.Hash, sha
 			}
 			return false, err
 		}
-		parentsToIgnore = append(parentsToIgnore, shallowCommit.ParentHashes...)
+		// Only parents that are really absent mark the boundary: a
+		// parent that is present (reachable through a non-shallow
+		// child) must still be walked.
+		for _, ph := range shallowCommit.ParentHashes {
+			if _, err := s.EncodedObject(plumbing.CommitObject, ph); errors.Is(err, plumbing.ErrObjectNotFound) {
+				parentsToIgnore = append(parentsToIgnore, ph)
+			}
+		}
 	}
 
 	found := false
